@@ -436,6 +436,8 @@ func (self *Fork) updateId(id ForkId) {
 	self.join_metadata = NewMetadata(self.fqname+".join",
 		path.Join(self.path, "join"))
 	self.join_metadata.journalPath = self.split_metadata.journalPath
+	// The cached list refers to the metadata objects for the old ID.
+	self.metadatasCache = nil
 	if self.Split() {
 		self.split_metadata.discoverUniquify()
 		self.join_metadata.finalFilePath = self.metadata.finalFilePath
